@@ -48,3 +48,28 @@ Proof.
 Qed.
 
 End EndToEnd.
+
+(** ... with [in_f1 fb] and [0 < T fb] derived from the plain fragment ([t2e_guard]: [t2_guard] and
+    k > 0 on AtLeastKInARow / ExactlyKInARow) *)
+Theorem plain_e2e_sound_guard : forall p ci fb ds,
+  plain_input p = Some ci -> t2e_guard p = true -> create_flat ci = FOk fb -> doc_sem p = Ok ds ->
+  forall b ok n' final, compile fb = COk b -> full_cnf b = (ok, n', final) ->
+  forall t, sat t final = true -> exists q, onehot fb t q /\ valid_b (ds_sem ds) q = true.
+Proof.
+  intros p ci fb ds Hin Hg Hfb Hds b ok n' final Hc Hfull. destruct (plain_t2_in_f1 p ci fb Hin Hg Hfb) as [Hf1 HT].
+  unfold t2e_guard in Hg. apply andb_true_iff in Hg. destruct Hg as [Hg _].
+  exact (plain_e2e_sound p ci fb ds Hin Hg Hfb Hds Hf1 HT b ok n' final Hc Hfull).
+Qed.
+
+Theorem plain_e2e_complete_unique_guard : forall p ci fb ds,
+  plain_input p = Some ci -> t2e_guard p = true -> create_flat ci = FOk fb -> doc_sem p = Ok ds ->
+  forall b ok n' final, compile fb = COk b -> full_cnf b = (ok, n', final) ->
+  forall q, valid_b (ds_sem ds) q = true ->
+    (exists t, sat t final = true /\ onehot fb t q) /\
+    (forall t1 t2, sat t1 final = true -> sat t2 final = true -> onehot fb t1 q -> onehot fb t2 q ->
+                   agree_upto n' t1 t2).
+Proof.
+  intros p ci fb ds Hin Hg Hfb Hds b ok n' final Hc Hfull. destruct (plain_t2_in_f1 p ci fb Hin Hg Hfb) as [Hf1 HT].
+  unfold t2e_guard in Hg. apply andb_true_iff in Hg. destruct Hg as [Hg _].
+  exact (plain_e2e_complete_unique p ci fb ds Hin Hg Hfb Hds Hf1 HT b ok n' final Hc Hfull).
+Qed.
